@@ -548,6 +548,8 @@ impl Env {
                 let w = self.writer.as_mut().unwrap();
                 let pc = w.prepare_commit().or_fail("prepare_commit_failed")?;
                 pc.abort().or_fail("abort_failed")?;
+                // abort() is a rollback: the writer is replaced internally and gets the default merge policy
+                self.apply_policy();
                 if self.dirty {
                     self.stats.aborts_with_work += 1;
                 }
